@@ -37,6 +37,21 @@ func vpC03Setup(t *rapid.T, tag string) (*vpLedger, []*vpC03Cand) {
 		l.FinalizeOne(t, []crypto.Hash{ver.PayloadHash()})
 	}
 	btc := l.Assets[1].Id
+	// split some of the funded outputs so that free slots also sit at output
+	// indexes 1 and 2 (a lock rule that only looks at index 0 must not go unnoticed)
+	for _, u := range l.Unspent(&btc, true, true) {
+		if rapid.IntRange(0, 2).Draw(t, "split") == 0 {
+			continue
+		}
+		half := u.Amount.Div(2)
+		outs := []vpLOut{{Type: common.OutputTypeScript, Owners: []int{0}, Threshold: 1, Amount: half}, {Type: common.OutputTypeScript, Owners: []int{0}, Threshold: 1, Amount: u.Amount.Sub(half)}}
+		tx := l.BuildSpend(btc, []*vpLUTXO{u}, outs, nil, nil)
+		ver := l.SignMaps(tx, []*vpLUTXO{u}, [][]int{{0}})
+		if err := l.Admit(ver, l.Tick(10), "transfer"); err != nil {
+			t.Fatalf("split: %v", err)
+		}
+		l.FinalizeOne(t, []crypto.Hash{ver.PayloadHash()})
+	}
 	free := l.Unspent(&btc, true, true)
 	var cands []*vpC03Cand
 	n := rapid.IntRange(3, 8).Draw(t, "ncand")
